@@ -4,6 +4,7 @@ import (
 	"encoding/json"
 	"fmt"
 
+	vestingtypes "github.com/chain4energy/c4e-chain/x/cfevesting/types"
 	"github.com/cosmos/cosmos-sdk/client"
 	codectypes "github.com/cosmos/cosmos-sdk/codec/types"
 	sdk "github.com/cosmos/cosmos-sdk/types"
@@ -139,4 +140,52 @@ func (c *Chain) BuildSimTx(msgs []sdk.Msg) (txBytes []byte, err error) {
 func (c *Chain) SimulateTx(bz []byte) (res *sdk.Result, err error, pi *PanicInfo) {
 	pi = catch("Simulate", func() { _, res, err = c.App.Simulate(bz) })
 	return
+}
+
+// CanonMsgs returns copies of the custom-module messages with their address fields in canonical (lower-case) bech32;
+// fields that do not decode are left as they are. Messages of other modules are passed through.
+func CanonMsgs(msgs []sdk.Msg) []sdk.Msg {
+	canon := func(s *string) {
+		if a, err := sdk.AccAddressFromBech32(*s); err == nil {
+			*s = a.String()
+		}
+	}
+	out := make([]sdk.Msg, len(msgs))
+	for i, m := range msgs {
+		out[i] = m
+		bz, err := Enc().Marshaler.MarshalInterface(m) // a byte-exact copy (JSON would rewrite strings that are not valid UTF-8)
+		if err != nil {
+			continue
+		}
+		var c sdk.Msg
+		if err := Enc().Marshaler.UnmarshalInterface(bz, &c); err != nil {
+			continue
+		}
+		switch t := c.(type) {
+		case *vestingtypes.MsgCreateVestingPool:
+			canon(&t.Owner)
+		case *vestingtypes.MsgWithdrawAllAvailable:
+			canon(&t.Owner)
+		case *vestingtypes.MsgSendToVestingAccount:
+			canon(&t.Owner)
+			canon(&t.ToAddress)
+		case *vestingtypes.MsgCreateVestingAccount:
+			canon(&t.FromAddress)
+			canon(&t.ToAddress)
+		case *vestingtypes.MsgSplitVesting:
+			canon(&t.FromAddress)
+			canon(&t.ToAddress)
+		case *vestingtypes.MsgMoveAvailableVesting:
+			canon(&t.FromAddress)
+			canon(&t.ToAddress)
+		case *vestingtypes.MsgMoveAvailableVestingByDenoms:
+			canon(&t.FromAddress)
+			canon(&t.ToAddress)
+		default:
+			continue
+		}
+		_ = UnpackMsg(c)
+		out[i] = c
+	}
+	return out
 }
